@@ -656,7 +656,7 @@ incremental = false
 """
 
 
-def write_crate(dirpath, name, modules, features=("std",), extra_deps="", main_extra=""):
+def write_crate(dirpath, name, modules, features=("std",), extra_deps="", main_extra="", extra_files=None):
     """modules: list of (modname, text). Writes the crate; returns nothing."""
     os.makedirs(os.path.join(dirpath, "src"), exist_ok=True)
     feats = ", ".join(f'"{f}"' for f in features)
@@ -671,6 +671,9 @@ def write_crate(dirpath, name, modules, features=("std",), extra_deps="", main_e
         f.write("[net]\noffline = true\n")
     with open(os.path.join(dirpath, "src", "support.rs"), "w") as f:
         f.write(SUPPORT_RS)
+    for fname, ftext in (extra_files or {}).items():
+        with open(os.path.join(dirpath, "src", fname), "w") as f:
+            f.write(ftext)
     for modname, text in modules:
         with open(os.path.join(dirpath, "src", modname + ".rs"), "w") as f:
             f.write("#![allow(dead_code, unused_variables, unused_mut, unused_imports, non_snake_case, "
